@@ -466,6 +466,8 @@ thread_local! {
   static UNSAFE_FAILS: RefCell<Vec<&'static str>> = const { RefCell::new(Vec::new()) };
   static SEQ_EVENTS: RefCell<BTreeMap<&'static str, u64>> = const { RefCell::new(BTreeMap::new()) };
   static QUIET: Cell<bool> = const { Cell::new(false) };
+  static SEQ_SPINS: Cell<u64> = const { Cell::new(0) };
+  static SEQ_DEADLOCKS: RefCell<Vec<String>> = const { RefCell::new(Vec::new()) };
   static LAST_PANIC: RefCell<Option<String>> = const { RefCell::new(None) };
 }
 
@@ -506,6 +508,12 @@ pub fn take_seq_events() -> BTreeMap<&'static str, u64> {
   SEQ_EVENTS.with(|f| std::mem::take(&mut *f.borrow_mut()))
 }
 
+/// Self-deadlocks seen by this thread outside a simulation since the last call.
+pub fn take_seq_deadlocks() -> Vec<String> {
+  SEQ_SPINS.with(|c| c.set(0));
+  SEQ_DEADLOCKS.with(|d| std::mem::take(&mut *d.borrow_mut()))
+}
+
 pub fn set_quiet(q: bool) {
   QUIET.with(|c| c.set(q));
 }
@@ -528,7 +536,21 @@ impl Hooks for VsimHooks {
     let ctx = CTX.with(|c| c.borrow().clone());
     match ctx {
       Some((sim, me)) => sim.step(me, kind, site, true),
-      None => std::thread::yield_now(),
+      None => {
+        // Outside a simulation there is only this thread: waiting for a lock
+        // can only mean it waits for itself (a lock left held by an earlier,
+        // cancelled call, or re-entrancy). Report instead of spinning forever.
+        let n = SEQ_SPINS.with(|c| {
+          c.set(c.get() + 1);
+          c.get()
+        });
+        if n > 10_000 {
+          SEQ_SPINS.with(|c| c.set(0));
+          SEQ_DEADLOCKS.with(|d| d.borrow_mut().push(site_str(kind, site)));
+          panic!("vsim: single-threaded call waits forever at {}", site_str(kind, site));
+        }
+        std::thread::yield_now()
+      }
     }
   }
 
